@@ -4,6 +4,7 @@
 
 mod adapters;
 mod obs;
+mod threads;
 mod util;
 mod vec;
 mod vecops;
@@ -28,6 +29,10 @@ fn main() {
             obs::replay(&args[2], &args[3], nv);
         }
         "adapters-replay" => adapters::replay(&args[2], &args[3]),
+        "threads" => {
+            let rep = arg_after(&args, "--repeat").map(|s| s.parse().unwrap()).unwrap_or(1);
+            threads::replay(&args[2], &args[3], rep);
+        }
         "vecops" => vecops::run(&args[2], &args[3]),
         "vec-replay" => vec::replay(&args[2], &args[3]),
         other => {
